@@ -901,6 +901,7 @@ fn phase_hostile_valid(ctx: &Ctx, rep: &Report) {
                         }
                     }
                 }
+                Err(e) if e.starts_with(tzchild::SPAWN_FAILED) => rep.harness_error(format!("C16 hostile-zone child: {}", e)),
                 Err(e) => loc.violation(&format!("C16/accepted-zone/Local/child-died/hostile-valid-file-class-{}", class), json!({"zone": desc, "error": e})),
             }
             let _ = std::fs::remove_file(&path);
